@@ -4,7 +4,7 @@
 From Coq Require Import Reals ZArith List Bool Lra Lia String.
 From PyLib Require Import PyVal PyBuiltins Ideal Whnf PyEval.
 From Gen Require Import M_base M_Angle M_Epoch M_Interpolation M_Coordinates M_Earth.
-From Proofs.C18 Require Import C18_tac C18_spec C18_bridge C18_rp.
+From Proofs.C18 Require Import C18_tac C18_spec C18_defs C18_rp.
 Import ListNotations.
 Open Scope R_scope.
 
